@@ -191,6 +191,7 @@ def flat_line_test (inp : List V) (tinp : List Int) (suspect_threshold : Rat) (f
   flag_arr := run_test flag_arr fail_threshold .fail
   flag_arr := setWhere flag_arr (maskOf inp) .missing
   return flag_arr
+
 -- END GENERATED
 
 end IoosQc.NpSrc
